@@ -7,6 +7,7 @@ cross-check disagreement between the interpreter and CPython, zero obligations, 
 """
 import argparse
 import hashlib
+import fractions
 import json
 import multiprocessing as mp
 import os
@@ -25,6 +26,7 @@ NATIVE_PY = os.environ.get('PYVC_NATIVE_PY', '/venv/bin/python')
 
 # property -> contract modules that carry its harnesses
 MODULES = {
+    'C17': ['contracts.c17'],
     'C15': ['contracts.c15'],
     'C03': ['contracts.c03', 'contracts.whole_supernet'],
     'C19': ['contracts.c19'],
@@ -59,6 +61,42 @@ TRUSTED_BASE = [
 
 def _worker(job):
     return R.run_job(job)
+
+
+def _witness_search(o, group, results, seed, limit=24):
+    """candidate inputs for a refuted obligation whose solver model does not reproduce natively; returns (inputs, native result) of the
+    first candidate on which the real code violates the same clause, else None"""
+    import random
+    rnd = random.Random(seed * 31 + 7)
+    cands = [g['model'] for g in group[1:7] if g.get('model')]
+    for res in results:
+        j = res['job']
+        if j['module'] == o['module'] and j['fn'] == o['fn'] and j['config'] == o['config']:
+            cands.extend(res.get('cc_inputs') or [])
+    base = dict(o['model'] or {})
+    for _ in range(10):
+        m = dict(base)
+        for k_ in m:
+            v = m[k_]
+            if isinstance(v, bool) or not isinstance(v, (str, int, float)):
+                continue
+            if rnd.random() < 0.6:
+                m[k_] = str(fractions.Fraction(rnd.randint(-24, 24), 8)) if rnd.random() < 0.8 else str(rnd.choice((-1, 1)) * rnd.randint(2, 40))
+        cands.append(m)
+    cands = cands[:limit]
+    if not cands:
+        return None
+    tasks = [dict(module=o['module'], fn=o['fn'], config=o['config'], inputs=c) for c in cands]
+    try:
+        got = native_batch(tasks)
+    except Exception:
+        return None
+    for c, nr in zip(cands, got):
+        if nr is None or nr.get('status') == 'assume-failed':
+            continue
+        if o['name'] in [n for n, ok in nr.get('ensures', []) if not ok]:
+            return c, nr
+    return None
 
 
 def _concrete_worker(args):
@@ -309,7 +347,18 @@ def main(argv=None):
             if c.get('status', '').startswith(('engine-error', 'unsupported')) or (o['name'] in cfail) or (c.get('exception') and not nr.get('exception')):
                 engine_errors.append(f"{o['harness']}{json.dumps(o['config'], sort_keys=True)}: {o['name']}: interpreter and CPython disagree on the counter-model ({verdict}); see {path}")
             else:
-                violations.append((o, path, ' no-failing-input-found'))
+                # The solver's witness lives in the slack of a library contract (softmax, rounding, rsqrt are specified by properties, not
+                # computed).  Look for a failing input of the REAL code among other candidate inputs of the same configuration: the
+                # counter-models of the other paths, the inputs sampled from the path conditions, random perturbations of the witness.
+                alt = _witness_search(o, groups[(o['harness'], o['name'], json.dumps(o['config'], sort_keys=True))], results, seed) if not args.no_native else None
+                if alt is not None:
+                    rec['model_of_the_solver'] = rec['model']
+                    rec['model'], rec['native'], rec['verdict'] = alt[0], alt[1], 'reproduced'
+                    rec['witness_note'] = 'failing input of the real code found by evaluating candidate inputs of the refuted configuration (the solver model did not reproduce)'
+                    json.dump(rec, open(path, 'w'), indent=1, default=str)
+                    violations.append((o, path, ''))
+                else:
+                    violations.append((o, path, ' no-failing-input-found'))
 
     # ------------------------------------------------------------------ CPython cross-check of the interpreter
     cc = dict(samples=0, agreed=0, mismatches=[], skipped=0)
